@@ -230,6 +230,9 @@ func docReplay(args []string) *Result {
 	distinct := map[string]struct{}{}
 	nLayouts := 0
 	fmt.Sscan(os.Getenv("VH_LAYOUTS"), &nLayouts)
+	if ig := os.Getenv("VH_IGNORE"); ig != "" {
+		skelIgnoreKeys = strings.Split(ig, ",") // skeleton fields the calling check does not own
+	}
 	seed := 1
 	fmt.Sscan(os.Getenv("VERIF_SEED"), &seed)
 	lrng := newRng(uint64(seed))
